@@ -183,6 +183,7 @@ def index_replay(ctx, rng):
         lrs = []
         passx = {}            # data type -> [next x, dx] of the DFSR in force
         first_x = {}          # position (1-based) of a data record -> X of its first frame
+        tab_at = {}           # position of a table record -> (type, name)
         for pos, r in enumerate(recs, 1):
             k = r['k']
             if k in MAKE:
@@ -190,7 +191,11 @@ def index_replay(ctx, rng):
                 if k in ('FH', 'FT', 'TH', 'TT', 'RH', 'RT'):
                     passx = {}
             elif k == 'TAB':
-                lrs.append(bytes([34, 0]) + b'IA\x04\x00TYPE    ' + rng.choice([b'CONS', b'TOOL', b'OUTP']) + b'\x00A\x04\x00MNEM    BS  ')
+                # the three table record types (job identification 32, wellsite data 34, tool string info 39), each with its table name
+                ttype = rng.choice([34, 34, 32, 39])
+                tname = rng.choice([b'CONS', b'TOOL', b'OUTP', b'PRES', b'FILM'])
+                tab_at[pos] = (ttype, tname)
+                lrs.append(bytes([ttype, 0]) + b'IA\x04\x00TYPE    ' + tname + b'\x00A\x04\x00MNEM    BS  ')
             elif k in ('MISC', 'MARK', 'UNK'):
                 lrs.append(GLL.misc(TYPE[k], b'' if k == 'MARK' else b'operator text'))
             elif k in ('DFSR0', 'DFSR1'):
@@ -220,11 +225,15 @@ def index_replay(ctx, rng):
             ctx.fail('indexing the record sequence %s raised %s: %s' % (case['records'], type(e).__name__, e), case, sig=dict(kind='index-seq-exception'))
             continue
         got = [(e.tell, e.lrType) for e in idx._idx]
-        want_listed = [(starts[p - 1], TYPE[recs[p - 1]['k']]) for p in row['listed']]
-        got_listed = [g for g in got if g[1] in (128, 129, 130, 131, 132, 133, 34)]
+        want_listed = [(starts[p - 1], tab_at[p][0] if p in tab_at else TYPE[recs[p - 1]['k']]) for p in row['listed']]
+        got_listed = [g for g in got if g[1] in (128, 129, 130, 131, 132, 133, 34, 32, 39)]
+        want_names = [(starts[p - 1], tab_at[p][1]) for p in row['listed'] if p in tab_at]
+        got_names = [(e.tell, getattr(e, 'name', None)) for e in idx._idx if e.lrType in (34, 32, 39)]
         bad = None
         if got_listed != want_listed:
             bad = 'headers/trailers/tables listed as %r, the file has %r' % (got_listed, want_listed)
+        elif got_names != want_names:
+            bad = 'tables listed with the names %r, the file has %r' % (got_names, want_names)
         elif [g[0] for g in got] != sorted(g[0] for g in got):
             bad = 'index entries are not in file order: %r' % (got,)
         else:
